@@ -23,7 +23,7 @@ REQUIRE = {"calls-on-a-definition-used-before": 20000, "definitions-used-before-
 KINDS = ["QUBIT", "REGISTER", "INT", "FLOAT", "NONE"]
 VALUE_CLASSES = ["qubit", "register", "int", "intfloat", "float", "constI", "constFint", "constF", "pQ", "pR", "pI", "pF", "pN",
                  "inf", "nan", "hugefloat", "constFinf", "npint", "npfloat", "npintfloat", "zero", "zerofloat", "none",
-                 "constCint", "constCintf", "constCfrac", "fracint", "frac", "hugefracint", "hugefrac", "hugeint"]
+                 "constCint", "constCintf", "constCfrac", "fracint", "frac", "hugefracint", "hugefrac", "hugeint", "complex", "npcomplex"]
 
 
 def make_values():
@@ -47,6 +47,8 @@ def make_values():
         "fracint": __import__("fractions").Fraction(4, 2), "frac": __import__("fractions").Fraction(5, 2),
         "hugefracint": __import__("fractions").Fraction(10 ** 400, 1), "hugefrac": __import__("fractions").Fraction(10 ** 400, 3),
         "hugeint": 2 ** 1024,
+        # numbers that are no real numbers
+        "complex": 0.5 + 0j, "npcomplex": __import__("numpy").complex128(2),
         "npint": __import__("numpy").int64(3), "npfloat": __import__("numpy").float64(0.25), "npintfloat": __import__("numpy").float32(2.0),
     }
 
